@@ -11,6 +11,9 @@ EXPRESSION_PARTS = (
     'or_test and_test not_test comparison '
     'expr xor_expr and_expr shift_expr arith_expr term factor power atom_expr'
 ).split()
+# Expressions that bind weaker than the EXPRESSION_PARTS. The nodes they can be
+# part of (a ternary, a comprehension condition, ...) are not in that list.
+_LOW_PRECEDENCE_TYPES = ('test', 'lambdef', 'yield_expr')
 
 
 class ChangedFile:
@@ -223,6 +226,7 @@ def inline(inference_state, names):
         path = name.get_root_context().py__file__()
         s = replace_code
         if rhs.type == 'testlist_star_expr' \
+                or rhs.type in _LOW_PRECEDENCE_TYPES and tree_name.parent.type != 'expr_stmt' \
                 or tree_name.parent.type in EXPRESSION_PARTS \
                 or tree_name.parent.type == 'trailer' \
                 and tree_name.parent.get_next_sibling() is not None:
